@@ -19,14 +19,14 @@ static int log_reply(void *out, void *arg)
 	int len;
 	
 	if (!arg) {
-		mpt_log(0, _func, MPT_LOG(Debug), "%s (" PRIxPTR ")",
-		        MPT_tr("empty reply"), out);
+		mpt_log(0, _func, MPT_LOG(Debug), "%s (%" PRIxPTR ")",
+		        MPT_tr("empty reply"), (uintptr_t) out);
 		return 0;
 	}
 	memcpy(&msg, arg, sizeof(msg));
 	if (!(len = mpt_message_read(&msg, sizeof(mt), &mt))) {
-		mpt_log(0, _func, MPT_LOG(Debug), "%s (" PRIxPTR ")",
-		        MPT_tr("zero length reply"), out);
+		mpt_log(0, _func, MPT_LOG(Debug), "%s (%" PRIxPTR ")",
+		        MPT_tr("zero length reply"), (uintptr_t) out);
 		return 0;
 	}
 	if (mt.cmd == MPT_MESGTYPE(Answer)) {
@@ -38,20 +38,20 @@ static int log_reply(void *out, void *arg)
 		} else if (mt.arg) {
 			type = MPT_LOG(Info);
 		}
-		mpt_log(0, _func, type, "%s (" PRIxPTR "): %s = %02x",
-		        MPT_tr("answer message"), out, MPT_tr("code"), mt.arg);
+		mpt_log(0, _func, type, "%s (%" PRIxPTR "): %s = %02x",
+		        MPT_tr("answer message"), (uintptr_t) out, MPT_tr("code"), mt.arg);
 	}
 	else if (mt.cmd == MPT_MESGTYPE(Output)) {
 		if (len < 2) {
 			mt.arg = MPT_LOG(Debug);
 		}
-		mpt_log(0, _func, mt.arg & 0x7f, "%s (" PRIxPTR ")",
-		        MPT_tr("reply message"), out);
+		mpt_log(0, _func, mt.arg & 0x7f, "%s (%" PRIxPTR ")",
+		        MPT_tr("reply message"), (uintptr_t) out);
 	}
 	else {
 		len += mpt_message_length(&msg);
-		mpt_log(0, _func, MPT_LOG(Debug), "%s (" PRIxPTR "): %s = %02x, %s = %i",
-		        MPT_tr("message"), out,
+		mpt_log(0, _func, MPT_LOG(Debug), "%s (%" PRIxPTR "): %s = %02x, %s = %i",
+		        MPT_tr("message"), (uintptr_t) out,
 		        MPT_tr("type"), mt.cmd,
 		        MPT_tr("length"), len);
 	}
